@@ -112,7 +112,7 @@ def _branches(func: ast.FunctionDef):
     return [(s.test, s.body, s) for s in func.body if isinstance(s, ast.If)]
 
 
-def rule_diagonal_solver(rep: Report, repo: Repo):
+def rule_diagonal_solver(rep: Report, repo: Repo, complex_energies: bool = True):
     outer = repo.find(f"{MOD}::solve_sylvester_diagonal", RULE)
     inner = [d for d in nested_defs(outer) if d.name == "solve_sylvester"]
     if len(inner) != 1:
@@ -137,6 +137,25 @@ def rule_diagonal_solver(rep: Report, repo: Repo):
                     if lo[0] in ("A", "B") and ro[0] in ("A", "B"):
                         diffs.append((n, lo, ro))
         if not diffs:
+            # a branch that returns without computing an energy difference itself must be a
+            # recognised passthrough or a delegation to the solver whose denotation is the contract
+            rets = [n for st in body for n in ast.walk(st) if isinstance(n, ast.Return)]
+            if not rets or ttxt == "Y is zero":
+                continue
+            for r in rets:
+                den = _delegation(r.value, f.name)
+                inst = f"{MOD}::solve_sylvester_diagonal branch `if {ttxt[:50]}` returns `{norm(r.value)[:80]}`"
+                if den is None:
+                    raise AnalysisError(RULE, f"solver branch `if {ttxt[:60]}` returns a value by a route that is not understood")
+                if den == "ok":
+                    rep.ok(RULE, inst + " = Y (.) 1/(E_i[row] - E_j[col])", "delegation with the contract's kernel", loc(r))
+                elif den == "Y (.) conj(K(i,j))" and not complex_energies:
+                    rep.ok(RULE, inst + " = Y (.) conj(K(i,j))", "equal to the contract's kernel for the real energies of a Hermitian H_0 "
+                           "(reported as a violation by the properties that cover complex energies: C05, C06, C16)", loc(r))
+                else:
+                    rep.fail(RULE, f"{MOD}::solve_sylvester_diagonal branch `if {ttxt[:50]}` returns `{norm(r.value)[:80]}` which denotes {den}",
+                             "required Y (.) K(i,j) with K(i,j)[r,c] = 1/(E_i[r] - E_j[c]); note K(j,i) = -K(i,j)^T, so "
+                             "-Dagger(solve(Dagger(Y), swapped)) = Y (.) conj(K(i,j)) is only right for real energies", loc(r))
             continue
         n_value_branches += 1
         kind = _branch_kind(ttxt)
@@ -191,6 +210,76 @@ def rule_diagonal_solver(rep: Report, repo: Repo):
     ok = a is not None and b is not None and norm(a) == f"{eigs_name}[index[0]]" and norm(b) == f"{eigs_name}[index[1]]"
     rep.check(ok, RULE, f"{MOD}::solve_sylvester_diagonal eigs_A, eigs_B = eigs[index[0]], eigs[index[1]]",
               f"{norm(a) if a is not None else None}, {norm(b) if b is not None else None}", loc(f))
+
+
+def _delegation(e: ast.AST, fname: str):
+    """Denotation of an expression built from a recursive solver call by Dagger / .T / .conj() / negation.
+    Returns 'ok', a description of the wrong kernel, or None if not understood."""
+    st = None
+
+    def go(x):
+        nonlocal st
+        if isinstance(x, ast.UnaryOp) and isinstance(x.op, ast.USub):
+            r = go(x.operand)
+            if r:
+                st["sign"] *= -1
+            return r
+        if isinstance(x, ast.Call) and call_name(x) == "Dagger" and len(x.args) == 1:
+            r = go(x.args[0])
+            if r:
+                for k in ("y_conj", "y_T", "k_conj", "k_T"):
+                    st[k] = not st[k]
+            return r
+        if isinstance(x, ast.Attribute) and x.attr == "T":
+            r = go(x.value)
+            if r:
+                st["y_T"], st["k_T"] = not st["y_T"], not st["k_T"]
+            return r
+        if isinstance(x, ast.Call) and isinstance(x.func, ast.Attribute) and x.func.attr in ("conj", "conjugate") and not x.args:
+            r = go(x.func.value)
+            if r:
+                st["y_conj"], st["k_conj"] = not st["y_conj"], not st["k_conj"]
+            return r
+        if isinstance(x, ast.Call) and call_name(x) == fname and len(x.args) == 2:
+            arg, idx = x.args
+            y = {"y_conj": False, "y_T": False}
+            a = arg
+            while True:
+                if isinstance(a, ast.Call) and call_name(a) == "Dagger" and len(a.args) == 1:
+                    y["y_conj"], y["y_T"] = not y["y_conj"], not y["y_T"]
+                    a = a.args[0]
+                elif isinstance(a, ast.Attribute) and a.attr == "T":
+                    y["y_T"] = not y["y_T"]
+                    a = a.value
+                elif isinstance(a, ast.Call) and isinstance(a.func, ast.Attribute) and a.func.attr in ("conj", "conjugate"):
+                    y["y_conj"] = not y["y_conj"]
+                    a = a.func.value
+                else:
+                    break
+            if norm(a) != "Y":
+                return False
+            it = norm(idx)
+            if it in ("index", "(index[0], index[1], *index[2:])"):
+                pair = (0, 1)
+            elif it in ("(index[1], index[0], *index[2:])", "(index[1], index[0]) + index[2:]", "(index[1], index[0]) + tuple(index[2:])"):
+                pair = (1, 0)
+            else:
+                return False
+            st = dict(sign=1, k_conj=False, k_T=False, pair=pair, **y)
+            return True
+        return False
+
+    if not go(e) or st is None:
+        return None
+    if st["pair"] == (1, 0):  # K(j,i) = -K(i,j)^T
+        st["sign"] *= -1
+        st["k_T"] = not st["k_T"]
+        st["pair"] = (0, 1)
+    if st["y_conj"] or st["y_T"]:
+        return f"a result built from {'conj' if st['y_conj'] else ''}{'^T' if st['y_T'] else ''}(Y) instead of Y"
+    if st["sign"] == 1 and not st["k_conj"] and not st["k_T"]:
+        return "ok"
+    return f"{'-' if st['sign'] < 0 else ''}Y (.) {'conj' if st['k_conj'] else ''}(K(i,j)){'^T' if st['k_T'] else ''}"
 
 
 def _branch_kind(t: str) -> str:
